@@ -14,6 +14,11 @@
 //	M2 SourceVersion never decreases; an upsert with an older source version,
 //	   and an ensure with a not-newer one, leave the row exactly unchanged
 //	M3 a row disappears only through an explicit physical delete
+//	B1 inside one atomic batch (Batch, WriteBatch, multi-command fsm
+//	   ApplyBatch) no applied command's cursor effect is lost: the post-batch
+//	   row equals, in ReadSeq/DeletedToSeq/AckSeq/SourceVersion/tombstone
+//	   state, the row obtained by applying the same applied commands one by
+//	   one (differential twin, see twinCheck)
 //	D1 a directory pass with any page size returns every live membership
 //	   exactly once, never repeats a row, in (ActivatedAt desc, channel) order,
 //	   while other users' rows are being mutated between the pages
@@ -143,6 +148,23 @@ type c16Outcome struct {
 	Class  string   `json:"class"` // ok | notfound | conflict | invalid | error
 	Err    string   `json:"err,omitempty"`
 	PerCmd []string `json:"per_cmd,omitempty"`
+	OpCmd  []int    `json:"op_cmd,omitempty"` // fsm: index of the command that carried op i
+}
+
+// applied reports whether operation i of an accepted group took part in the
+// commit: every staged operation of a committed Batch/WriteBatch, and for the
+// fsm every operation of a command whose own result is not stale_meta /
+// hash_slot_fenced (a stale multi-command batch is re-applied command by
+// command, a stale command is skipped as a whole).
+func (o c16Outcome) applied(i int) bool {
+	if o.Class != "ok" {
+		return false
+	}
+	if len(o.OpCmd) == 0 {
+		return true
+	}
+	res := o.PerCmd[o.OpCmd[i]]
+	return res != fsm.ApplyResultStaleMeta && res != fsm.ApplyResultHashSlotFenced
 }
 
 func c16ErrClass(err error) c16Outcome {
@@ -270,6 +292,7 @@ func (e *c16Env) run(g c16Group) c16Outcome {
 		return c16ErrClass(wb.Commit())
 	case c16PathFSM:
 		var cmds []multiraft.Command
+		var opCmd []int
 		add := func(data []byte) {
 			cmds = append(cmds, multiraft.Command{SlotID: multiraft.SlotID(e.slot), HashSlot: hs, Index: e.nextIndex(), Term: 1, Data: data})
 		}
@@ -283,6 +306,9 @@ func (e *c16Env) run(g c16Group) c16Outcome {
 			kind := g.Ops[i].Kind
 			var ms []c16M
 			var cs []c16C
+			for range g.Ops[i:j] {
+				opCmd = append(opCmd, len(cmds))
+			}
 			for _, op := range g.Ops[i:j] {
 				if op.M != nil {
 					ms = append(ms, *op.M)
@@ -328,7 +354,7 @@ func (e *c16Env) run(g c16Group) c16Outcome {
 		if err != nil {
 			return c16ErrClass(err)
 		}
-		out := c16Outcome{Class: "ok"}
+		out := c16Outcome{Class: "ok", OpCmd: opCmd}
 		for _, res := range results {
 			out.PerCmd = append(out.PerCmd, string(res))
 		}
@@ -588,6 +614,114 @@ func c16GenGroup(rng *rand.Rand, env *c16Env, w *c16World, users []*c16User, mul
 	return g
 }
 
+// c16PairKinds are the mutation kinds whose ordered same-row pairs inside one
+// atomic batch are generated on purpose (B1).
+var c16PairKinds = []string{"read", "activate", "hide", "tombstone", "upsert", "ensure"}
+
+// c16GenPairGroup builds a Batch / WriteBatch / multi-command fsm group whose
+// 2-3 operations all hit ONE existing row, for a uniformly drawn ordered pair
+// of mutation kinds, with values that mostly take effect (higher cursors,
+// rising source versions) so that a lost intermediate result is visible.
+func c16GenPairGroup(rng *rand.Rand, env *c16Env, w *c16World, users []*c16User) (c16Group, bool) {
+	path := c16Pick(rng, c16PathBatch, c16PathWB, c16PathFSM, c16PathFSM)
+	u := users[rng.IntN(len(users))]
+	g := c16Group{Path: path, HS: u.HS, Merge: rng.IntN(2) == 0}
+	if rng.IntN(7) == 0 { // command membership row
+		k := u.Cmds[rng.IntN(len(u.Cmds))]
+		cur, _ := env.read(u.HS, k)
+		base := uint64(0)
+		if cur.C != nil {
+			base = cur.C.AckSeq
+		}
+		n := 2 + rng.IntN(2)
+		for i := 0; i < n; i++ {
+			kind := c16Pick(rng, c16CmdUpsert, c16CmdAck, c16CmdAck, c16CmdTomb)
+			cm := c16GenC(rng, k, cur.C)
+			if rng.IntN(4) != 0 {
+				cm.AckSeq = base + uint64(1+rng.IntN(3)+i)
+			}
+			if kind == c16CmdUpsert {
+				cm.Tombstone = false
+			}
+			g.Ops = append(g.Ops, c16Op{Kind: kind, C: cm})
+		}
+		return g, true
+	}
+	kinds := []string{c16Pick(rng, c16PairKinds...), c16Pick(rng, c16PairKinds...)}
+	if rng.IntN(10) < 3 {
+		kinds = append(kinds, c16Pick(rng, c16PairKinds...))
+	}
+	pool := u.Keys
+	if path == c16PathFSM && slices.Contains(kinds, "ensure") {
+		pool = u.Pers // the fsm ensure command only accepts person channels
+	}
+	var existing []c16Key
+	for _, k := range pool {
+		if row, err := env.read(u.HS, k); err == nil && row.M != nil {
+			existing = append(existing, k)
+		}
+	}
+	if len(existing) == 0 {
+		return g, false
+	}
+	k := existing[rng.IntN(len(existing))]
+	for _, h := range w.Hot {
+		if slices.Contains(existing, h) && rng.IntN(2) == 0 {
+			k = h
+		}
+	}
+	cur, _ := env.read(u.HS, k)
+	base := *cur.M
+	for i, kind := range kinds {
+		m := c16GenM(rng, k, cur.M)
+		m.Tombstone, m.TombstoneAt = false, 0
+		effective := rng.IntN(4) != 0
+		step := uint64(1 + rng.IntN(3) + 2*i)
+		op := c16Op{M: m}
+		switch kind {
+		case "read":
+			op.Kind = c16Read
+			if effective {
+				m.ReadSeq = base.ReadSeq + step
+			}
+		case "hide":
+			op.Kind = c16Hide
+			if effective {
+				m.DeletedToSeq = base.DeletedToSeq + step
+			}
+		case "activate":
+			op.Kind = c16Activate
+			m.ActivatedAt = c16Pick(rng, int64(5), 9, 12, base.ActivatedAt+1+int64(i))
+		case "tombstone":
+			op.Kind = c16Upsert
+			if path == c16PathFSM && rng.IntN(2) == 0 {
+				op.Kind = c16DelCmd
+			}
+			m.Tombstone, m.TombstoneAt = true, int64(rng.IntN(6))
+			if effective {
+				m.SourceVersion = base.SourceVersion + uint64(1+i)
+			}
+		case "upsert":
+			op.Kind = c16Upsert
+			if effective {
+				m.SourceVersion = base.SourceVersion + uint64(i) + uint64(rng.IntN(2))
+			}
+		case "ensure":
+			op.Kind = c16Ensure
+			if effective {
+				m.SourceVersion = base.SourceVersion + uint64(1+i)
+			}
+		}
+		g.Ops = append(g.Ops, op)
+	}
+	for i := 1; i < len(g.Ops); i++ {
+		if g.Ops[i].Kind == c16Ensure && g.Ops[i-1].Kind == c16Ensure {
+			g.Merge = false // one ensure command may not name a row twice
+		}
+	}
+	return g, true
+}
+
 // ---------------------------------------------------------------------------
 // oracle for one executed group
 
@@ -616,6 +750,7 @@ type c16Case struct {
 	fp    interface{ Write([]byte) (int, error) }
 	// non-triviality
 	staleRefused, advanced, resets, tiesPaged int
+	twinSeq                                    int
 }
 
 func (c *c16Case) site(g c16Group, ops []c16Op) string {
@@ -646,6 +781,12 @@ func (c *c16Case) exec(g c16Group, stepName string) bool {
 		}
 		before[i] = row
 	}
+	// B1 twin: a multi-operation atomic group is replayed one operation at a
+	// time on copies of the touched rows (see twinPrepare).
+	var tw *c16Twin
+	if len(g.Ops) > 1 && (g.Path == c16PathBatch || g.Path == c16PathWB || g.Path == c16PathFSM) {
+		tw = c.twinPrepare(g, keys, before)
+	}
 	var out c16Outcome
 	desc := g.Path + "/" + c16Kinds(g)
 	if r.Guard("c16:"+desc, map[string]any{"case": c.ci, "step": stepName, "group": g}, func() { out = env.run(g) }) {
@@ -674,11 +815,276 @@ func (c *c16Case) exec(g c16Group, stepName string) bool {
 			tok += c.checkOrdinary(st, site, ops)
 		}
 	}
+	if tw != nil {
+		tok += c.twinCheck(tw, g, out, keys, before, stepName)
+	}
 	c.fp.Write([]byte(tok))
 	if len(c.trail) < 96 {
 		c.trail = append(c.trail, tok)
 	}
 	return true
+}
+
+// ---------------------------------------------------------------------------
+// B1: batch transparency of the cursors (differential twin)
+//
+// Inside one atomic batch the rows between two operations are not observable,
+// so M1 alone cannot see an applied command whose effect is overwritten by a
+// later command of the same batch (e.g. [advance(30), activate] leaving the
+// old read_seq, or [tombstone(v2), advance] leaving a live v1 row). The
+// monitor therefore copies the pre-batch rows of every touched key to fresh
+// twin rows (same channel, uid + "~t<n>"), and after the batch was accepted
+// replays exactly the applied operations one at a time, each in its own
+// commit, through the plain Shard API on the twins. Cursor monotonicity at
+// command granularity is then the requirement that the batched row carries
+// the same ReadSeq / DeletedToSeq / AckSeq / SourceVersion / tombstone state /
+// existence as the one-by-one twin. Equality (not only >=) is sound because
+// both sides run the same resolve rules, including the incarnation resets;
+// fields whose Shard and Batch variants legitimately differ (UpdatedAt,
+// TombstoneAt of command rows) and ActivatedAt/JoinSeq/StartSeq are only
+// counted.
+
+type c16Twin struct {
+	id   int
+	keys []c16Key // twin key of keys[i]
+	ok   bool
+}
+
+func (c *c16Case) twinUID(uid string, id int) string { return fmt.Sprintf("%s~t%d", uid, id) }
+
+func (c *c16Case) twinPrepare(g c16Group, keys []c16Key, before []c16Row) *c16Twin {
+	c.twinSeq++
+	tw := &c16Twin{id: c.twinSeq, ok: true}
+	sh := c.env.mdb.HashSlot(metadb.HashSlot(g.HS))
+	for i, k := range keys {
+		tk := k
+		tk.UID = c.twinUID(k.UID, tw.id)
+		tw.keys = append(tw.keys, tk)
+		var err error
+		switch {
+		case before[i].M != nil:
+			m := *before[i].M
+			m.UID = tk.UID
+			err = sh.UpsertUserChannelMembership(c.env.ctx, m) // absent row: stored verbatim
+		case before[i].C != nil:
+			cm := *before[i].C
+			cm.UID = tk.UID
+			err = sh.UpsertUserCMDChannelMembership(c.env.ctx, cm)
+		}
+		if err == nil && before[i].exists() {
+			got, rerr := c.env.read(g.HS, tk)
+			switch {
+			case rerr != nil:
+				err = rerr
+			case before[i].M != nil:
+				want := *before[i].M
+				want.UID = tk.UID
+				if got.M == nil || *got.M != want {
+					err = errors.New("twin copy differs")
+				}
+			case before[i].C != nil:
+				want := *before[i].C
+				want.UID = tk.UID
+				if got.C == nil || *got.C != want {
+					err = errors.New("twin copy differs")
+				}
+			}
+		}
+		if err != nil {
+			c.cnt["twin_setup_failed"]++
+			tw.ok = false
+		}
+	}
+	return tw
+}
+
+// twinApply runs one operation alone through the Shard API on the twin uid.
+func (c *c16Case) twinApply(hs uint16, op c16Op, uid string) error {
+	sh := c.env.mdb.HashSlot(metadb.HashSlot(hs))
+	ctx := c.env.ctx
+	if op.C != nil {
+		cm := *op.C
+		cm.UID = uid
+		switch op.Kind {
+		case c16CmdUpsert:
+			return sh.UpsertUserCMDChannelMembership(ctx, cm)
+		case c16CmdAck:
+			return sh.AdvanceUserCMDChannelMembershipAckSeq(ctx, cm.UID, cm.CommandChannelID, cm.ChannelType, cm.AckSeq, cm.UpdatedAt)
+		case c16CmdTomb:
+			return sh.TombstoneUserCMDChannelMembership(ctx, cm.UID, cm.CommandChannelID, cm.ChannelType, cm.TombstoneAt)
+		}
+		return fmt.Errorf("harness: twin: unsupported %s", op.Kind)
+	}
+	m := *op.M
+	m.UID = uid
+	switch op.Kind {
+	case c16Upsert, c16DelCmd:
+		return sh.UpsertUserChannelMembership(ctx, m)
+	case c16Ensure:
+		return sh.EnsureUserChannelMembership(ctx, m)
+	case c16Read:
+		return sh.AdvanceUserChannelMembershipReadSeq(ctx, m.UID, c16ChKey(&m), m.ReadSeq, m.UpdatedAt)
+	case c16Hide:
+		return sh.HideUserChannelMembership(ctx, m.UID, c16ChKey(&m), m.DeletedToSeq, m.UpdatedAt)
+	case c16Activate:
+		return sh.SetUserChannelMembershipActivatedAt(ctx, m.UID, c16ChKey(&m), m.ActivatedAt, m.UpdatedAt)
+	case c16Delete:
+		return sh.DeleteUserChannelMembership(ctx, m.UID, c16ChKey(&m))
+	}
+	return fmt.Errorf("harness: twin: unsupported %s", op.Kind)
+}
+
+func c16PairKind(op c16Op) string {
+	if op.M != nil && (op.Kind == c16Upsert || op.Kind == c16DelCmd) {
+		if op.M.Tombstone {
+			return "tombstone"
+		}
+		return "upsert"
+	}
+	return op.Kind
+}
+
+func (c *c16Case) twinCheck(tw *c16Twin, g c16Group, out c16Outcome, keys []c16Key, before []c16Row, stepName string) string {
+	r := c.r
+	if !tw.ok {
+		return "/tw?"
+	}
+	if out.Class != "ok" {
+		c.cnt["twin_skipped_group_not_accepted"]++
+		return "/tw-"
+	}
+	idx := map[c16Key]int{}
+	for i, k := range keys {
+		idx[k] = i
+	}
+	// replay the applied operations one by one; count ordered same-row pairs
+	last := map[c16Key]string{}
+	sameRow := false
+	for i, op := range g.Ops {
+		if !out.applied(i) {
+			c.cnt["twin_ops_skipped_command_stale"]++
+			continue
+		}
+		k := op.key()
+		if prev, ok := last[k]; ok {
+			sameRow = true
+			c.cnt["samerow_pair."+prev+">"+c16PairKind(op)+"."+g.Path]++
+		}
+		last[k] = c16PairKind(op)
+		if err := c.twinApply(g.HS, op, tw.keys[idx[k]].UID); err != nil {
+			// cannot happen on a tree where the batch and the single-call
+			// variants agree; the row comparison below decides.
+			c.cnt["twin_replay_op_error"]++
+		}
+		c.cnt["twin_ops_replayed"]++
+	}
+	c.cnt["twin_groups_compared"]++
+	if sameRow {
+		c.cnt["twin_groups_with_same_row_ops"]++
+	}
+	tag := "/tw="
+	for i, k := range keys {
+		main, err := c.env.read(g.HS, k)
+		if err != nil {
+			return "/tw?"
+		}
+		twin, err := c.env.read(g.HS, tw.keys[i])
+		if err != nil {
+			return "/tw?"
+		}
+		wit := func() map[string]any {
+			return map[string]any{"case": c.ci, "step": stepName, "group": g, "outcome": out, "key": k,
+				"before": before[i], "after_batch": main, "after_one_by_one": twin, "trail": slices.Clone(c.trail)}
+		}
+		lost := func(field string) {
+			r.Violation("applied-command-effect-lost-in-batch:"+field+":"+g.Path, wit())
+			tag = "/tw!"
+		}
+		differs := func(field string) {
+			r.Violation("batch-result-differs-from-one-by-one:"+field+":"+g.Path, wit())
+			tag = "/tw!"
+		}
+		c.cnt["twin_rows_compared"]++
+		if main.exists() != twin.exists() {
+			differs("existence")
+			continue
+		}
+		if !main.exists() {
+			continue
+		}
+		if k.Cmd {
+			a, t := main.C, twin.C
+			switch {
+			case a.AckSeq < t.AckSeq:
+				lost("ack_seq")
+			case a.AckSeq > t.AckSeq:
+				differs("ack_seq")
+			}
+			if a.Tombstone != t.Tombstone {
+				if t.Tombstone {
+					lost("tombstone")
+				} else {
+					differs("tombstone")
+				}
+			}
+			if a.StartSeq != t.StartSeq {
+				c.cnt["twin_uncompared_field_differs.start_seq"]++
+			}
+			continue
+		}
+		a, t := main.M, twin.M
+		cmp := func(field string, av, tv uint64) {
+			switch {
+			case av < tv:
+				lost(field)
+			case av > tv:
+				differs(field)
+			}
+		}
+		cmp("read_seq", a.ReadSeq, t.ReadSeq)
+		cmp("deleted_to", a.DeletedToSeq, t.DeletedToSeq)
+		cmp("source_version", a.SourceVersion, t.SourceVersion)
+		if a.Tombstone != t.Tombstone {
+			if t.Tombstone {
+				lost("tombstone")
+			} else {
+				differs("tombstone")
+			}
+		}
+		if a.ActivatedAt != t.ActivatedAt {
+			c.cnt["twin_uncompared_field_differs.activated_at"]++
+		}
+		if a.JoinSeq != t.JoinSeq || a.UpdatedAt != t.UpdatedAt || a.TombstoneAt != t.TombstoneAt {
+			c.cnt["twin_uncompared_field_differs.other"]++
+		}
+		// D1 after the batch: a row that an applied command of the batch left
+		// tombstoned must not be listed live by a directory pass.
+		if t.Tombstone && sameRow {
+			c.directoryTombstoneCheck(g, k, wit)
+		}
+	}
+	return tag
+}
+
+// directoryTombstoneCheck walks k's user's directory (page size 2) and
+// requires the row, if listed, to be listed as tombstoned.
+func (c *c16Case) directoryTombstoneCheck(g c16Group, k c16Key, wit func() map[string]any) {
+	u := c.w.user(k.UID)
+	if u == nil {
+		return
+	}
+	rows, _, err, stuck := c.pass(u, 2, len(u.Keys)+4, nil)
+	if err != nil || stuck {
+		return // the regular audit reports these
+	}
+	c.cnt["directory_after_batch_tombstone_checks"]++
+	for _, m := range rows {
+		if m.ChannelID == k.Ch && m.ChannelType == k.Typ && !m.Tombstone {
+			w := wit()
+			w["listed"] = m
+			c.r.Violation("directory-lists-row-live-after-applied-tombstone:"+g.Path, w)
+		}
+	}
 }
 
 func c16Has(ops []c16Op, kinds ...string) bool {
@@ -1057,6 +1463,17 @@ func c16RunCase(r *verifkit.Run, env *c16Env, ci, steps int) {
 			if !c.exec(g, name+"/replay") {
 				return
 			}
+		case k < 32: // several mutations of ONE row inside one atomic batch (B1)
+			g, ok := c16GenPairGroup(rng, env, c.w, c.w.Users)
+			if !ok {
+				g = c16GenGroup(rng, env, c.w, c.w.Users, true)
+			} else {
+				c.cnt["samerow_pair_groups_generated"]++
+			}
+			if !c.exec(g, name+"/pair") {
+				return
+			}
+			history = append(history, g)
 		default:
 			g := c16GenGroup(rng, env, c.w, c.w.Users, true)
 			if !c.exec(g, name) {
@@ -1088,12 +1505,13 @@ func c16RunCase(r *verifkit.Run, env *c16Env, ci, steps int) {
 func TestVerifC16(t *testing.T) {
 	r := verifkit.Start(t, "C16", "main")
 	defer r.Finish()
-	r.SetRule("Each case is a PRNG-generated history over 3-4 users (uids that are prefixes of one another, two per hash slot) x 8-9 ordinary channels (group ids of different lengths/types and person channels) + 2 command channels each: membership upserts, fsm delete (tombstone) commands, ensures, read advances, hides, activations, physical deletes, command bind/ack/unbind, verbatim replays of earlier groups, through meta.Shard, ShardStore, typed Batch, WriteBatch and encoded fsm commands (multi-membership commands and multi-command ApplyBatch), 60% of them on 5 hot rows; every touched row is read back before/after. Directory audits walk one user's ListUserChannelMembershipPage with a one-page reference pass and 2-3 other page sizes while 1-2 generated groups mutate other users' rows between pages. Field values are drawn near the stored ones from small domains. Non-trivial = history with >=1 refused stale source version, >=1 cursor advance, >=1 accepted incarnation reset and >=1 multi-page directory pass containing an ActivatedAt tie; distinct = hash of the (path, kinds, outcome, per-row effect) sequence.")
+	r.SetRule("Each case is a PRNG-generated history over 3-4 users (uids that are prefixes of one another, two per hash slot) x 8-9 ordinary channels (group ids of different lengths/types and person channels) + 2 command channels each: membership upserts, fsm delete (tombstone) commands, ensures, read advances, hides, activations, physical deletes, command bind/ack/unbind, verbatim replays of earlier groups, through meta.Shard, ShardStore, typed Batch, WriteBatch and encoded fsm commands (multi-membership commands and multi-command ApplyBatch), 60% of them on 5 hot rows; every touched row is read back before/after. Directory audits walk one user's ListUserChannelMembershipPage with a one-page reference pass and 2-3 other page sizes while 1-2 generated groups mutate other users' rows between pages. Field values are drawn near the stored ones from small domains. Multi-operation atomic groups (incl. purpose-built 2-3 operation groups on ONE existing row for every ordered pair of read/activate/hide/tombstone/upsert/ensure, 15% of steps) are replayed operation by operation through the Shard API on twin copies of the touched rows and the batched row must carry the same cursors, source version and tombstone state. Non-trivial = history with >=1 refused stale source version, >=1 cursor advance, >=1 accepted incarnation reset and >=1 multi-page directory pass containing an ActivatedAt tie; distinct = hash of the (path, kinds, outcome, per-row effect) sequence.")
 	r.Assume("Cursor monotonicity is per membership incarnation: a lower cursor is accepted only (a) tombstone->live upsert with strictly higher SourceVersion, (b) ensure with strictly higher SourceVersion over a row whose stored SourceVersion != 0, (c) re-bind of a tombstoned command membership, (d) after a physical delete. Inside a multi-operation batch on one row only 'SourceVersion strictly increased and an upsert/ensure was present' is required.")
+	r.Assume("Batch transparency (B1) is judged by equality with a one-by-one replay of the applied operations through meta.Shard on copies of the pre-batch rows; only operations of an accepted batch / of fsm commands whose own result is not stale_meta are replayed. UpdatedAt, TombstoneAt, JoinSeq, StartSeq and ActivatedAt differences are counted, not alarmed.")
 	r.Assume("ActivatedAt values are >= 0 (the page cursor rejects negative values). Channel order among ids of different length is only required to be identical in every pass (index keys are length-prefixed); equal-length ids must ascend by (id, type).")
 	r.Assume("Tombstoned rows may or may not be listed by a directory pass (counted); they must not repeat.")
 
-	nCases := r.N(2400, 32000)
+	nCases := r.N(2000, 26000)
 	steps := 40
 	const workers = 4
 	envs := make([]*c16Env, workers)
